@@ -63,7 +63,7 @@ fn b01(b: bool) -> char {
 
 pub fn exec(a: &[&str]) -> String {
     match a[0] {
-        "rows" | "rowsc" => rows_out(&parse(a)),
+        "rows" | "rowsc" | "rowss" => rows_out(&parse(a)),
         "get" | "getc" => grid_out(&parse(a)),
         "cur" => {
             let dsv = parse(a);
@@ -230,9 +230,10 @@ pub fn gen(tier: Tier, r: &mut Rng, emit: &mut dyn FnMut(String)) {
                 .collect();
             let hx = hex_bytes(&t);
             emit(format!("C21 rows {d:02x} {q:02x} {n:02x} {hx}"));
-            emit(format!("C21 rowsc {d:02x} {q:02x} {n:02x} {hx}"));
             emit(format!("C21 get {d:02x} {q:02x} {n:02x} {hx}"));
-            emit(format!("C21 getc {d:02x} {q:02x} {n:02x} {hx}"));
+            if len <= 3 {
+                emit(format!("C21 rowss {d:02x} {q:02x} {n:02x} {hx}"));
+            }
         }
     }
     // ---- generated texts
@@ -251,14 +252,15 @@ pub fn gen(tier: Tier, r: &mut Rng, emit: &mut dyn FnMut(String)) {
         let t = gen_text(r, d, q, n, len, style);
         let hx = hex_bytes(&t);
         emit(format!("C21 rows {d:02x} {q:02x} {n:02x} {hx}"));
-        emit(format!("C21 rowsc {d:02x} {q:02x} {n:02x} {hx}"));
+        if i % 16 == 0 {
+            emit(format!("C21 rowss {d:02x} {q:02x} {n:02x} {hx}"));
+        }
         // t ++ n (append-separator invariance is a theorem about the spec; both texts are tied here)
         let mut t2 = t.clone();
         t2.push(n);
         emit(format!("C21 rows {d:02x} {q:02x} {n:02x} {}", hex_bytes(&t2)));
         if t.len() <= 160 {
             emit(format!("C21 get {d:02x} {q:02x} {n:02x} {hx}"));
-            emit(format!("C21 getc {d:02x} {q:02x} {n:02x} {hx}"));
         }
         // cursor operation list
         let nops = r.range(1, 30);
